@@ -62,7 +62,7 @@ Proof. exact (ib_design_id d). Qed.
 Print Assumptions C01G_no_pairs_identity.
 
 (* for a design without Pairs, in one line *)
-Corollary C01G_flatten_is_lower d d' : no_pairs d = true -> bp_wf d = true -> bundle_passes d = Ok d' -> d' = lower_m fl_impl d.
+Theorem C01G_flatten_is_lower d d' : no_pairs d = true -> bp_wf d = true -> bundle_passes d = Ok d' -> d' = lower_m fl_impl d.
 Proof.
   intros Hn W H. unfold bundle_passes in H. rewrite (ib_design_id d Hn) in H. cbn [bind] in H. exact (flat_design_is_lower d d' W H).
 Qed.
@@ -114,7 +114,7 @@ Proof. exact (passes_end_to_end xi d d1 d' fuel ts os p tl). Qed.
 Print Assumptions C01G_bundles_end_to_end_partial.
 
 (* ... stated on bundle_passes itself *)
-Corollary C01G_bundle_passes_end_to_end_partial xi d d' fuel ts os p tl :
+Theorem C01G_bundle_passes_end_to_end_partial xi d d' fuel ts os p tl :
   bundle_passes d = Ok d' ->
   pairs_wf d = true -> (forall d1, ib_design d = Ok d1 -> bp_wf d1 = true) ->
   traverse (borbit d fuel) ts = Ok os -> forallb (forallb (bnode_ok d)) os = true -> forallb (orbit_closed d) os = true ->
